@@ -4,3 +4,5 @@ pub mod c04;
 pub mod c20;
 pub mod c01;
 pub mod c05;
+pub mod c14;
+pub mod c15;
